@@ -78,7 +78,7 @@ def intercept(ctx):
         ctx.check(g.every_path_to(g.nodes_of(wa[0]), g.nodes_of(sv[0])), wa[0], "the wrapper precedes the payload")
     mm = [n for n in t[0].body if isinstance(n, ast.If) and unparse(n.test) == "type(obj) is self.np.memmap"]
     ctx.check(bool(mm) and any(unparse(s_) == "obj = self.np.asanyarray(obj)" for s_ in mm[0].body), mm[0] if mm else t[0], "memmaps are converted with asanyarray before dumping")
-    ctx.check(any(isinstance(s, ast.Return) for s in t[0].body), t[0], "intercepted arrays do not also go through the default saver")
+    ctx.check(bool(wa) and not any(g.path_exists(g.nodes_of(wa[0]), g.nodes_of(c)) for c in dflt), t[0], "intercepted arrays do not also go through the default saver")
     u = F(ctx, "NumpyUnpickler.load_build")
     gu = cfg_of(u)
     base = [c for c in calls_in(u) if call_name(c) == "Unpickler.load_build"]
